@@ -145,6 +145,19 @@ CLAIMED.update({
     },
 })
 
+CLAIMED.update({
+    "C07": {
+        "text": "Container-conformance clauses decided structurally: EOF container bytes (evaluated static) vs CRAMv3 §9 and, by offset, vs the "
+                "reader's is_eof constants; finalisation must-pass-through; CRC32/MD5 integrity guards on every success exit of the block and "
+                "container-header readers (sync and async) and the writer's CRC taken from its CrcWriter; dec∘enc = id for all CRAM code tables; "
+                "Encoder->CompressionMethod labelling; the 28 data series and the guard edges that dominate each accessor call agree between "
+                "slice reader and slice writer (guard signatures). Record equality and codec correctness are not decided.",
+        "note": "trusts flate2 CRC and md5; symmetric read_x/write_x structure is floor-checked; three guard asymmetries are tabled with reasons",
+        "technique": "static analysis: evaluated constants, guard dominance, HIR match-table agreement, guard-signature comparison of sibling codecs (MIR edge dominance)",
+        "design_ref": "§5 C07",
+    },
+})
+
 NOT_APPLICABLE = {
     "C08": "every clause is numeric (rANS/arith/fqzcomp state arithmetic, ITF8/LTF8 bit arithmetic): correct and off-by-one "
            "implementations have the same code shape, so no sound static rule short of a solver/proof decides it; the "
